@@ -29,6 +29,10 @@ CHECKS = {
    technique="exhaustive enumeration of single-header damage patterns (every offset x byte values, word-range fills, all word mixes of the two headers) applied to closed files after 0..n commits; each damaged image opened by the real library and compared with the state of the newest header still valid per the independent checker",
    text="Every damage pattern of the bounded classes on either header page of every base file is opened with the real library: open must succeed, the full dump must equal the state recorded by the newest header that is still valid (type byte + checksum, decided by fileck), DB::check() must agree, and one more commit must read back and leave a well-formed file.",
    note="Trusted: fileck's restatement of header validity; refmodel. One header damaged, the rest of the file intact."),
+ "C02": dict(engine="crashx", cat="fault_enumeration", ref="DESIGN.md §2 C02",
+   technique="exhaustive crash-image enumeration per commit from the interposed write/fsync/fallocate log of the real write path (all subsets of unsynced ops, sector tears, 8-byte header tears, kill prefixes), each image reopened with the real library",
+   text="For every commit of the scripted histories (file growth from 4 pages, page-reusing update chains, overflow values, bucket deletes, splits/merges, every pair of kv-alphabet transactions) every crash image of the stated crash model is synthesised and reopened: open must succeed and show exactly the pre- or post-state (post once all syncs completed), DB::check() and the independent checker must accept the file.",
+   note="Trusted: the crash model (fsync barrier semantics, 512-byte sectors, 8-byte header words), fileck, refmodel. Interposition sees all I/O of the library on the database fd."),
 }
 
 NA = {}
@@ -67,6 +71,7 @@ def main():
         "engines": [
             {"name": "enumx", "path": "mc/src/enumx.rs", "serves_properties": ["C08"], "kind_free_text": "bounded-exhaustive input enumeration (seek keys x bound kinds x shapes) on the real read API"},
             {"name": "metax", "path": "mc/src/metax.rs", "serves_properties": ["C12"], "kind_free_text": "exhaustive byte/word damage enumeration on header pages, recovered with the real open()"},
+            {"name": "crashx", "path": "mc/src/crashx.rs", "serves_properties": ["C02"], "kind_free_text": "crash-point / torn-write enumeration over the logged I/O of each commit, recovery by the real open()"},
             {"name": "seqx", "path": "mc/src/seqx.rs", "serves_properties": ["C01", "C03", "C05", "C06", "C07", "C10"], "kind_free_text": "explicit-state BFS over histories of whole transactions executed on the real library in worker processes; state = history, key = structural digest of file + shared in-memory bookkeeping"},
         ],
         "checks": checks,
